@@ -10,12 +10,16 @@ using vh::Toks; using vh::L;
 #ifndef OPTN
 #define OPTN 1
 #endif
+struct Opt_int_values : Gudhi::Simplex_tree_options_full_featured { typedef int Filtration_value; };   // an integral value type (allowed by the FiltrationValue concept)
 #if OPTN == 0
 typedef Gudhi::Simplex_tree_options_default OPT;
+#elif OPTN == 2
+typedef Opt_int_values OPT;
 #else
 typedef Gudhi::Simplex_tree_options_full_featured OPT;
 #endif
 typedef Gudhi::Simplex_tree<OPT> ST;
+typedef typename ST::Filtration_value FV;
 typedef std::vector<int> S;
 static S verts(const ST& st, typename ST::Simplex_handle sh) { S v; for (auto x : st.simplex_vertex_range(sh)) v.push_back((int)x); std::sort(v.begin(), v.end()); return v; }
 static std::string W(const S& s) { std::ostringstream o; for (size_t i = 0; i < s.size(); ++i) { if (i) o << ","; o << s[i]; } return o.str(); }
@@ -29,8 +33,8 @@ static void build(ST& st, const Graph& g) {
   std::vector<typename PG::edge_descriptor> dummy; (void)dummy;
   // the tree needs contiguous boost vertex descriptors: map labels to descriptors and set the vertex labels through the tree afterwards is not possible,
   // so labels are inserted directly: vertices then edges, which is what insert_graph does (insert_simplex_raw on vertices and edges)
-  for (auto& kv : g.v) st.insert_simplex({kv.first}, (double)kv.second);
-  for (auto& t : g.e) st.insert_simplex({std::get<0>(t), std::get<1>(t)}, (double)std::get<2>(t));
+  for (auto& kv : g.v) st.insert_simplex({kv.first}, (FV)kv.second);
+  for (auto& t : g.e) st.insert_simplex({std::get<0>(t), std::get<1>(t)}, (FV)std::get<2>(t));
 }
 static bool blocked(const std::string& rule, long arg, const S& w) {
   if (rule == "parity") { long s = 0; for (int x : w) s += x; return s % 2 == 1; }
@@ -49,6 +53,7 @@ int main() {
       if (o == "expand") { ST st; build(st, g); st.expansion((int)L(t[1])); return cplx(st); }
       if (o == "expandb") { ST st; build(st, g); std::string rule = t[2]; long arg = L(t[3]);
         st.expansion_with_blockers((int)L(t[1]), [&](typename ST::Simplex_handle sh) { return blocked(rule, arg, verts(st, sh)); }); return cplx(st); }
+      if constexpr (std::is_floating_point<FV>::value) {
       if (o == "ripsm") {   // ripsm n thr dim d(1,0) d(2,0) d(2,1) ...   (lower triangular distance matrix)
         int n = (int)L(t[1]); double thr = (double)L(t[2]); int dim = (int)L(t[3]); std::vector<std::vector<double>> dm(n); size_t k = 4;
         for (int i = 0; i < n; ++i) for (int j = 0; j < i; ++j) dm[i].push_back((double)L(t[k++]));
@@ -56,8 +61,9 @@ int main() {
       if (o == "ripsp") {   // ripsp thr dim x0 x1 ...   (points on a line, Euclidean distance)
         double thr = (double)L(t[1]); int dim = (int)L(t[2]); std::vector<std::vector<double>> pts; for (size_t i = 3; i < t.size(); ++i) pts.push_back({(double)L(t[i])});
         Gudhi::rips_complex::Rips_complex<double> rips(pts, thr, Gudhi::Euclidean_distance()); ST st; rips.create_complex(st, dim); return cplx(st); }
+      }
       if constexpr (OPT::link_nodes_by_label) {
-        if (o == "edge") { std::vector<typename ST::Simplex_handle> added; inc->insert_edge_as_flag((int)L(t[1]), (int)L(t[2]), (double)L(t[3]), (int)L(t[4]), added);
+        if (o == "edge") { std::vector<typename ST::Simplex_handle> added; inc->insert_edge_as_flag((int)L(t[1]), (int)L(t[2]), (FV)L(t[3]), (int)L(t[4]), added);
           std::vector<S> a; for (auto sh : added) a.push_back(verts(*inc, sh)); std::sort(a.begin(), a.end()); r << "added"; for (auto& s : a) r << " " << W(s); return r.str(); }
         if (o == "cplx") return cplx(*inc);
         if (o == "inceq") {   // inceq d : the incremental tree against the one-shot expansion of the same graph (stored dimension, operator==)
